@@ -261,55 +261,119 @@ def r09d(run):
     run.check("R09d", f, "double negation cancels (~(~T) returns T)", ok, construct="double negation",
               message="LogicalType.__invert__ does not return the argument of an existing negation",
               necessity="~~T would be a Not(Not(T)) type: 'double negation cancels' fails")
-    # combine: duplicates and Any absorbed, single argument collapses
+    # combine as a decision table (absint.py): every argument list of length 0..3 over {X, Y, Any, a name given as text} for
+    # each operator, compared with the construction algebra: duplicates are skipped (first occurrence kept, order kept),
+    # Any absorbs | and ^, Any is dropped from &, nothing left gives the universal rule, a single remaining argument is
+    # returned as it is (except for ~), otherwise a new combinator type carries the arguments and the operator
+    import itertools
+    from ..absint import Interp, Obj, Raised
     g = run.repo.func("utype.parser.rule", "LogicalType.combine")
-    ga = analysis(g)
-    dedupe = anyor = anyand = single = False
-    # roles: the operator parameter and the loop variable that walks the arguments (whatever they are called)
-    OP = g.params[1] if len(g.params) > 1 else "operator"
-    loops = [m.stmt for m in ga.cfg.nodes if m.kind == "iter" and isinstance(m.stmt, ast.For)
-             and isinstance(m.stmt.target, ast.Name) and g.node.args.vararg is not None
-             and unparse(m.stmt.iter) == g.node.args.vararg.arg]
-    if len(loops) != 1:
-        raise AnalysisError("R09d: LogicalType.combine has no single loop over its arguments")
-    ARG = loops[0].target.id
-    for n in ga.cfg.nodes:
-        if n.kind != "stmt":
-            continue
-        facts = {(unparse(a), p) for a, p in ga.facts.atoms_at(n)}
-        if isinstance(n.ast, ast.Continue):
-            if any(t.startswith(f"{ARG} in ") and p for t, p in facts):
-                dedupe = True
-            if (f"{ARG} == Any", True) in facts and (f"{OP} == '&'", True) in facts:
-                anyand = True
-        if isinstance(n.ast, ast.Return):
-            if (f"{ARG} == Any", True) in facts and (f"{OP} in ('|', '^')", True) in facts \
-                    and unparse(n.ast.value) == "Rule":
-                anyor = True
-            if any(t.startswith("len(") and t.endswith("== 1") and p for t, p in facts) and \
-                    (f"{OP} != '~'", True) in facts:
-                single = True
-    for ok, what, nec in ((dedupe, "duplicate arguments are skipped", "T | T would keep two arguments"),
-                          (anyor, "Any absorbs a union / exclusive-or", "T | Any would still convert to T"),
-                          (anyand, "Any is dropped from a conjunction", "T & Any would carry a useless argument"),
-                          (single, "a single remaining argument collapses to itself (except for ~)",
-                           "T | T would be a one-argument union type instead of T")):
-        run.check("R09d", g, f"combine: {what}", ok, construct=f"combine: {what}",
-                  message=f"LogicalType.combine no longer implements: {what}", necessity=nec)
-    # flattening in combine_by
+    ANY, RULE, X, Y = Obj("Any"), Obj("Rule"), Obj("X"), Obj("Y")
+    built = []
+
+    def make_type(name, bases, ns):
+        t_ = Obj("combined", name=name, ns=ns)
+        built.append(t_)
+        return t_
+    wrong = {}
+    total = 0
+    for op in ("&", "|", "^", "~"):
+        for n_ in range(0, 4):
+            for args in itertools.product((X, Y, ANY), repeat=n_):
+                if op == "~" and n_ != 1:
+                    continue
+                mcs = Obj("LogicalType", _parse_arg=lambda a_: a_, _call=make_type)
+                ip = Interp(globals_={"Any": ANY, "Rule": RULE, "ForwardRef": lambda s_: Obj("ForwardRef", arg=s_)},
+                            module=g.module)
+                try:
+                    got = ip.call_function(g.node, (mcs, op) + args, {})
+                except Raised as r:
+                    got = f"raises {r.cls}"
+                total += 1
+                kept = []
+                absorbed = False
+                for a_ in args:
+                    if a_ is ANY:
+                        if op in ("|", "^"):
+                            absorbed = True
+                            break
+                        if op == "&":
+                            continue
+                    if not any(a_ is k for k in kept):
+                        kept.append(a_)
+                if absorbed or not kept:
+                    want = RULE
+                elif op != "~" and len(kept) == 1:
+                    want = kept[0]
+                else:
+                    want = ("type", op, kept)
+                names = [x._cls for x in args]
+                if isinstance(want, tuple):
+                    ok = isinstance(got, Obj) and got._cls == "combined" and list(got.ns.get("__args__", [])) == kept \
+                        and got.ns.get("__combinator__") == op
+                else:
+                    ok = got is want
+                if not ok:
+                    clause = ("Any absorbs a union / exclusive-or" if absorbed else
+                              "nothing left gives the universal rule" if not kept else
+                              "a single remaining argument collapses to itself (except for ~)" if not isinstance(want, tuple) else
+                              "duplicates are skipped, order kept, Any dropped from a conjunction")
+                    wrong.setdefault(clause, (f"{op} over {names}", repr(got)[:60],
+                                              [k._cls for k in kept] if isinstance(want, tuple) else want._cls))
+    for clause, nec in (("Any absorbs a union / exclusive-or", "T | Any would still convert to T"),
+                        ("nothing left gives the universal rule", "AllOf(Any) would be an empty conjunction type"),
+                        ("a single remaining argument collapses to itself (except for ~)", "T | T would be a one-argument union type instead of T"),
+                        ("duplicates are skipped, order kept, Any dropped from a conjunction", "T | T would keep two arguments; T & Any would carry a useless argument")):
+        w = wrong.get(clause)
+        run.check("R09d", g, f"combine: {clause}", w is None, construct=f"combine: {clause}",
+                  message=f"LogicalType.combine no longer implements: {clause} - for `{w[0] if w else ''}` it builds "
+                          f"{w[1] if w else ''} instead of {w[2] if w else ''}", necessity=nec)
+    run.floor("R09d", "argument lists evaluated for combine", total, 100)
+    # flattening in combine_by, as a decision table: the receiver is / is not a combinator of the same kind, the other
+    # operand is a same-kind combinator / another combinator / a plain type / a tuple of types, reverse on / off: the
+    # arguments handed to combine() are the spliced arguments of same-kind operands, in operand order
     h = run.repo.func("utype.parser.rule", "LogicalType.combine_by")
-    ha = analysis(h)
-    left = right = False
-    for n in ha.cfg.nodes:
-        if n.kind == "stmt" and isinstance(n.ast, ast.Assign):
-            facts = {(unparse(a), p) for a, p in ha.facts.atoms_at(n)}
-            if unparse(n.ast.value) == "cls.args" and ("cls.combinator == comb", True) in facts:
-                left = True
-            if unparse(n.ast.value) == "other.args" and ("comb == other.combinator", True) in facts:
-                right = True
-    run.check("R09d", h, "nested combinators of the same kind flatten (both operands)", left and right,
-              construct="flattening", message="LogicalType.combine_by does not splice the arguments of an operand "
-              "that already is the same combinator", necessity="(A | B) | C would nest instead of flatten")
+    P, Q, R_, S_ = Obj("P"), Obj("Q"), Obj("R"), Obj("S")
+    bad = {}
+    n_cases = 0
+    for comb in ("|", "&"):
+        for recv_kind in ("same", "other", "plain"):
+            for other_kind in ("same", "other-comb", "plain", "tuple"):
+                for reverse in (False, True):
+                    calls = []
+                    recv = Obj("LogicalType-instance", combinator=comb if recv_kind == "same" else ("^" if recv_kind == "other" else None),
+                               args=[P, Q], _bases=("LogicalType",),
+                               combine=lambda c_, *a_: calls.append((c_, list(a_))) or "built")
+                    if other_kind == "same":
+                        other = Obj("LogicalType-instance", combinator=comb, args=[R_, S_], _bases=("LogicalType",))
+                    elif other_kind == "other-comb":
+                        other = Obj("LogicalType-instance", combinator="^", args=[R_, S_], _bases=("LogicalType",))
+                    elif other_kind == "tuple":
+                        other = (R_, S_)
+                    else:
+                        other = R_
+                    ip = Interp(globals_={"LogicalType": "LogicalType"}, module=h.module)
+                    try:
+                        ip.call_function(h.node, (recv, comb, other), {"reverse": reverse})
+                    except Raised as r:
+                        calls.append(("raises", r.cls))
+                    n_cases += 1
+                    left = [P, Q] if recv_kind == "same" else [recv]
+                    right = [R_, S_] if other_kind in ("same", "tuple") else [other]
+                    want = (comb, (right + left) if reverse else (left + right))
+                    got = calls[0] if calls else None
+                    ok = got is not None and got[0] == want[0] and len(got[1]) == len(want[1]) and all(
+                        x is y for x, y in zip(got[1], want[1]))
+                    if not ok:
+                        bad.setdefault(f"receiver {recv_kind}, other {other_kind}, reverse={reverse}",
+                                       (comb, [getattr(x, "_cls", x) for x in (got[1] if got and isinstance(got[1], list) else [])],
+                                        [getattr(x, "_cls", x) for x in want[1]]))
+    run.check("R09d", h, "nested combinators of the same kind flatten (both operands), operand order kept", not bad,
+              construct="flattening", message="LogicalType.combine_by does not splice the arguments of an operand that "
+              "already is the same combinator (or changes the operand order): " + "; ".join(
+                  f"[{k}] combines {v[1]} instead of {v[2]}" for k, v in sorted(bad.items())[:2]),
+              necessity="(A | B) | C would nest instead of flatten; a reflected operator would swap the conjunction order")
+    run.floor("R09d", "operand shapes evaluated for combine_by", n_cases, 40)
 
 
 OPERATOR_METHODS = ("__and__", "__rand__", "__or__", "__ror__", "__xor__", "__rxor__", "__invert__", "combine_by",
